@@ -24,6 +24,9 @@ pub trait PairT: Clone + Send + Sync + 'static {
     fn collect_ref(v: &[(f64, f64)]) -> Self;
     fn extend_val(&mut self, v: &[(f64, f64)]);
     fn extend_ref(&mut self, v: &[(f64, f64)]);
+    /// collect / extend through an iterator of the given shape (Ingest.tla)
+    fn collect_shaped(v: &[(f64, f64)], by_ref: bool, shape: crate::types::Shape) -> Self;
+    fn extend_shaped(&mut self, v: &[(f64, f64)], by_ref: bool, shape: crate::types::Shape);
 }
 
 macro_rules! pair_common {
@@ -60,6 +63,32 @@ macro_rules! pair_common {
         }
         fn extend_ref(&mut self, v: &[(f64, f64)]) {
             Extend::extend(self, v.iter())
+        }
+        fn collect_shaped(v: &[(f64, f64)], by_ref: bool, shape: crate::types::Shape) -> Self {
+            use crate::types::{Resuming, Shape};
+            let mut w = v.to_vec();
+            w.extend([(12345.0, 2.0), (-999.0, 0.5)]);
+            match (shape, by_ref) {
+                (Shape::Exact, false) => v.iter().copied().collect(),
+                (Shape::Exact, true) => v.iter().collect(),
+                (Shape::Lazy, false) => v.iter().copied().filter(|p| p.0 == p.0 || p.0 != p.0).collect(),
+                (Shape::Lazy, true) => v.iter().filter(|p| p.0 == p.0 || p.0 != p.0).collect(),
+                (Shape::Resuming, false) => Resuming::new(&w, v.len()).copied().collect(),
+                (Shape::Resuming, true) => Resuming::new(&w, v.len()).collect(),
+            }
+        }
+        fn extend_shaped(&mut self, v: &[(f64, f64)], by_ref: bool, shape: crate::types::Shape) {
+            use crate::types::{Resuming, Shape};
+            let mut w = v.to_vec();
+            w.extend([(12345.0, 2.0), (-999.0, 0.5)]);
+            match (shape, by_ref) {
+                (Shape::Exact, false) => Extend::extend(self, v.iter().copied()),
+                (Shape::Exact, true) => Extend::extend(self, v.iter()),
+                (Shape::Lazy, false) => Extend::extend(self, v.iter().copied().filter(|p| p.0 == p.0 || p.0 != p.0)),
+                (Shape::Lazy, true) => Extend::extend(self, v.iter().filter(|p| p.0 == p.0 || p.0 != p.0)),
+                (Shape::Resuming, false) => Extend::extend(self, Resuming::new(&w, v.len()).copied()),
+                (Shape::Resuming, true) => Extend::extend(self, Resuming::new(&w, v.len())),
+            }
         }
     };
 }
